@@ -49,6 +49,11 @@ def documents(pm: ProgramModel, mb: ModelBuilder) -> dict[str, list[tuple[str, A
             f._f["attributes"].append(mb.attribute("label", "x", f))
         m = mb.model(r0, [])
         docs[rname].append(("written/same-attribute-on-several-features", written(wname, m), m))
+    from ..codec import name_model
+    for wname, rname in (("JSONWriter", "JSONReader"), ("GlencoeWriter", "GlencoeReader"), ("FeatureIDEWriter", "FeatureIDEReader")):
+        for label, nm_ in (("leading-blank", " lead"), ("trailing-blank", "trail "), ("tab-inside", "tab\there")):
+            m = name_model(mb, nm_)
+            docs[rname].append((f"written/name-{label}", written(wname, m), m))
     m = c06.afm_rich(mb)
     docs["AFMReader"].append(("written/rich", written("AFMWriter", m), m))
     n, o = mb.node, mb.op
